@@ -226,6 +226,28 @@ def check(program: Program, run: Run) -> None:
         run.finding("C07/unescaped-delimiter:utils.format_quotes", f"no identifier emission doubles the delimiter ({unescaped} site paths go through format_quotes unescaped): a name containing the quote character ends the identifier early (\"c\"d\")",
                     where=fq.loc(), rule="R3")
 
+    # ---- R9: the name that is printed is the name that was supplied: a str method applied to a name attribute on its way into
+    # the quotes (strip / case change / split ...) makes the definition differ from every reference that quotes the raw name
+    NAME_OPS_OK = {".replace"}          # doubling of the delimiter (judged by R3)
+    seen9 = set()
+    from ..symex import walk_parts as _wp9
+    for f, skv in fsk.items():
+        for part, _conds, _rep in _wp9(skv):
+            if not (isinstance(part, Hole) and isinstance(part.value, Sym) and part.value.kind == "call" and part.value.args
+                    and isinstance(part.value.args[0], str) and part.value.args[0].startswith(".") and len(part.value.args) > 1):
+                continue
+            op9, arg9 = part.value.args[0], part.value.args[1]
+            if op9 in NAME_OPS_OK or not (isinstance(arg9, Sym) and arg9.kind in ("attr", "getattr-default") and arg9.args[1] in NAME_ATTRS):
+                continue
+            fn9 = next((q for q in reversed(part.src[3]) if not is_module_function(program, q)), part.src[0]) if part.src and len(part.src) > 3 else f.qualname
+            key9 = f"C07/name-transformed:{part.src[0] if part.src else fn9}:{arg9.args[1]}:{op9}"
+            run.ob("C07/R9 a name is printed as supplied", f"{fn9}:{show(part.value)[:50]}", False, where=f"{part.src[2]}:{part.src[1]}" if part.src else "")
+            if key9 not in seen9:
+                seen9.add(key9)
+                run.finding(key9, f"{part.src[0] if part.src else fn9} prints `{show(part.value)[:60]}`: the name is changed by `{op9}` on its way into the quotes, so the identifier written here "
+                                  "is not the one every other site (qualifiers, GROUP BY / ORDER BY references) writes for the same object", where=f"{part.src[2]}:{part.src[1]}" if part.src else "", rule="R9")
+    run.ob("C07/R9 a name is printed as supplied", "all renderers", True, nontrivial=False)
+
     # ---- R8: a string operation applied to text that rendered children have already printed rewrites the quoted names inside
     from ..skel import recv_path as _rp8, transformed_renderings
     for c_, fn_, op_, inner_ in transformed_renderings(program):
